@@ -469,7 +469,11 @@ def execute(case, judge, judged_fns):
                 # a form refused at construction is not judged (STRENGTHEN_GUIDE: tagged); with every argument in its
                 # default float form a refusal is a violation
                 nondefault = {a: b for a, b in spec["forms"].items() if b not in ("ndarray", "list", "float")}
-                if s.get("replicates") and type(exc).__name__ == "InputError":
+                if type(exc).__name__ == "InputError" and ctx.traj([mref[spec["model"]][k_] for k_ in params], s["x0"]) is None:
+                    # the constructor integrates once with the values the (shared) model object holds at that moment; when the
+                    # reference itself does not exist for them (finite-time blow-up inside the horizon) the refusal is right
+                    tags.append("constructor-refuses:no-reference-solution-for-the-model's-current-values")
+                elif s.get("replicates") and type(exc).__name__ == "InputError":
                     # unchanged pygom: the constructor's trial integrate2 re-chooses the integrator from the eigenvalues after every
                     # step; when that is dopri5 the zero-length step between replicate times fails ("unable to integrate")
                     tags.append("constructor-refuses:replicate-times:InputError")
